@@ -1,5 +1,5 @@
 """C04 — encoder results do not depend on chunking or on UTF-8 vs UTF-16 input form (structural clauses)."""
-import t_dst, r_account, r_iso, r_lookahead, r_surr, r_inputempty
+import t_dst, r_account, r_iso, r_lookahead, r_surr, r_inputempty, r_dim
 import p_c09
 
 MANIFEST = {
@@ -12,7 +12,8 @@ MANIFEST = {
             'return; (D3) the UTF-8-source and UTF-16-source expansions of every encoder macro are structurally isomorphic; (D4) the '
             'with-replacement wrappers carve NCR_EXTRA off dst exactly when the encoding cannot encode everything, write the NCR at '
             'dst[total_written..], and decide InputEmpty/OutputFull after an NCR as documented (path summaries shared with C09). '
-            'Equality of concatenated bytes over all histories is not decided.',
+            'Equality of concatenated bytes over all histories is not decided. ' 
+            '(R-DIM) dimension inference over the index arithmetic of the slice-to-slice converters (no sum or difference mixes a source and a destination quantity; each buffer indexed with its own quantities; (read, written) = (source, destination) quantity; a path that advances the source position and returns has produced output; inside a loop that walks a buffer with a loop-carried position every index into that buffer depends arithmetically on such a position).',
     'note': 'Trusted: rustc MIR, mirx, rule library.',
     'technique': 'control-dependence taint rule + MIR dataflow + sibling-expansion comparison + bounded path summaries',
 }
@@ -21,6 +22,7 @@ CONFIGS = {'quick': ['default'], 'thorough': ['default', 'noalloc', 'simd', 'fas
 
 def run(rep, facts, tier):
     for c, f in facts.items():
+        r_dim.run(rep, f, c)
         nb, nev = t_dst.run(rep, f, c, 'T-DST', lambda n: 'Encoder::' in n or n.startswith('handles::Utf8Source') or n.startswith('handles::Utf16Source'))
         rep.floor('T-DST', 'Unmappable constructions examined', nev, 55, c)
         nb, ng = r_account.run(rep, f, c, 'R-ACCOUNT', lambda n: 'Encoder::' in n)
